@@ -49,6 +49,8 @@ import (
 	"context"
 	"encoding/json"
 	"fmt"
+	"hash/fnv"
+	"net/http"
 	"os"
 	"sort"
 	"strings"
@@ -291,11 +293,37 @@ func canonicalSizes(b baggage.Baggage) (total, maxMember int) {
 	return total, maxMember
 }
 
-// injectExtract sends b through the propagator into a fresh context.
+// injectExtract sends b through the propagator. The carrier is not always
+// brand new: depending on a hash of b (so that a case stays reproducible) it
+// is a fresh MapCarrier, a MapCarrier or http.Header that already holds a
+// stale baggage header, or a carrier another baggage was injected into just
+// before; and the context handed to Extract may already hold another
+// baggage. Inject replaces the header and Extract replaces the baggage, so
+// the result must be b in every variant. (An empty b writes no header at
+// all; it only gets the fresh carrier.)
 func injectExtract(b baggage.Baggage) (baggage.Baggage, string) {
-	carrier := propagation.MapCarrier{}
+	h := fnv.New32a()
+	_, _ = h.Write([]byte(b.String()))
+	variant := int(h.Sum32() % 5)
+	if b.Len() == 0 {
+		variant = 0
+	}
+	var carrier propagation.TextMapCarrier = propagation.MapCarrier{}
+	base := context.Background()
+	stale, _ := baggage.Parse("stale=1;p=q,verif.old=2")
+	switch variant {
+	case 1:
+		carrier.Set("baggage", "stale=1;p=q,verif.old=2")
+	case 2:
+		carrier = propagation.HeaderCarrier(http.Header{})
+		carrier.Set("baggage", "stale=1;p=q,verif.old=2")
+	case 3:
+		propagation.Baggage{}.Inject(baggage.ContextWithBaggage(context.Background(), stale), carrier)
+	case 4:
+		base = baggage.ContextWithBaggage(base, stale)
+	}
 	propagation.Baggage{}.Inject(baggage.ContextWithBaggage(context.Background(), b), carrier)
-	ctx := propagation.Baggage{}.Extract(context.Background(), carrier)
+	ctx := propagation.Baggage{}.Extract(base, carrier)
 	return baggage.FromContext(ctx), carrier.Get("baggage")
 }
 
